@@ -269,3 +269,14 @@ func DiffArch(a, b wdc.Arch) []string {
 	add(a.WDM != b.WDM, "WDM")
 	return d
 }
+
+// NewPrimaryOn wraps a CPU that lives inside another object (emulator.System): the given bus is
+// attached to a flat proxy memory and the CPU is initialised on it.
+func NewPrimaryOn(c *cpu65c816.CPU, b *bus.Bus) *Primary {
+	p := &memProxy{M: NewMem(0)}
+	if err := b.Attach(p, "flat", 0, 0xffffff); err != nil {
+		panic(err)
+	}
+	c.Init(b)
+	return &Primary{C: c, Bus: b, proxy: p}
+}
